@@ -149,6 +149,7 @@ func init() {
 				J("socket", "VX_C20_Socket", 2, 1), J("socket", "VX_C20_Socket", 1, 0),
 				J(".", "VX_C20_ContextStatus", 0, 2), J(".", "VX_C20_ContextStatus", 1, 2), J(".", "VX_C20_ContextStatus", 2, 2), J(".", "VX_C20_ContextStatus", 3, 2),
 			}
+			js = append(js, msgSeqJobs(tier)...)
 			if tier == "thorough" {
 				js = append(js, J("socket", "VX_C20_Message", 2, 1, 0, 2), J("socket", "VX_C20_Message", 2, 2, 3, 2), J("socket", "VX_C20_Args", 1, 1, 2), J("socket", "VX_C20_Args", 2, -1, 3), J("socket", "VX_C05_ReusedMessage", 2))
 			}
@@ -277,6 +278,7 @@ func init() {
 				J(".", "VX_C01_MetaAcrossRequests", 0, 1), J(".", "VX_C01_MetaAcrossRequests", 1, 1), J(".", "VX_C01_MetaAcrossRequests", 0, 1, 1), J(".", "VX_C01_MetaAcrossRequests", 1, 2, 1), J(".", "VX_C10_RealRoutes", 1),
 				J(".", "VX_C01_CtrlOverlap", 1, 1), J(".", "VX_C01_CtrlOverlap", 0, 1),
 			}
+			js = append(js, msgSeqJobs(tier)...)
 			if tier == "thorough" {
 				js = append(js, J("socket", "VX_C01_BodyStableAcrossFrames", 3, 3, 0, 9), J(".", "VX_C02_Replies", 0, 0, 1, 2, 0, 0, 1), J(".", "VX_C01_ConcurrentCalls", 2, 1), J(".", "VX_C01_MetaAcrossRequests", 0, 4, 0), J(".", "VX_C01_MetaAcrossRequests", 1, 4, 1))
 			}
@@ -296,6 +298,7 @@ func init() {
 			}
 			js = append(js, J(".", "VX_C03_Frame", 1, 1, 0, 0, 0, 0, 1, 0), J(".", "VX_C03_Frame", 1, 2, 0, 0, 0, 0, 1, 0), J(".", "VX_C03_Frame", 1, 1, 1, 0, 0, 0, 1, 0), J(".", "VX_C03_Frame", 1, 0, 0, 0, 2, 0, 1, 0))
 			js = append(js, J(".", "VX_C03_Frame", 1, 0, 0, 5, 0, 0, 1, 0), J(".", "VX_C03_Frame", 1, 0, 0, 6, 0, 0, 1, 0), J(".", "VX_C03_Frame", 1, 0, 0, 0, 4, 0, 1, 0))
+			js = append(js, msgSeqJobs(tier)...)
 			// wire link over the other protocols
 			js = append(js, J("proto/jsonproto", "VX_C05_JSONRoundTrip", 3, 1, 1), J("proto/jsonproto", "VX_C05_JSONRoundTrip", 3, 0, 1),
 				J("mixer/websocket/pbSubProto", "VX_C04_WSPbStatus"), J("mixer/websocket/jsonSubProto", "VX_C04_WSJsonStatus"),
@@ -337,6 +340,7 @@ func init() {
 			// framework-produced replies (404/400/500/veto) whose write fails with a transport error and is retried
 			js = append(js, J(".", "VX_C03_Frame", 1, 1, 0, 0, 0, 2, 1, 0), J(".", "VX_C03_Frame", 1, 2, 0, 0, 0, 2, 1, 0), J(".", "VX_C03_Frame", 1, 0, 0, 2, 0, 2, 1, 0), J(".", "VX_C03_Frame", 1, 0, 0, 1, 0, 2, 1, 0), J(".", "VX_C03_Frame", 1, 0, 0, 0, 2, 2, 1, 0), J(".", "VX_C03_Frame", 1, 1, 0, 0, 0, 1, 1, 0))
 			js = append(js, c19jobs("quick")...)
+			js = append(js, msgSeqJobs(tier)...)
 			if tier == "thorough" {
 				js = append(js, c02jobs("thorough")...)
 			}
@@ -577,6 +581,19 @@ func historyJobs(tier string, deep bool) []job {
 	var js []job
 	for first := 0; first <= 8; first++ {
 		js = append(js, J(".", "VX_Session_History", 6, first))
+	}
+	return js
+}
+
+// msgSeqJobs: solver-chosen sequences of message kinds on one session with LIFO
+// pools; each message must come out as on a fresh session (history independence).
+func msgSeqJobs(tier string) []job {
+	if tier != "thorough" {
+		return []job{J(".", "VX_Message_Sequence", 3)}
+	}
+	var js []job
+	for first := 0; first <= 8; first++ {
+		js = append(js, J(".", "VX_Message_Sequence", 4, first))
 	}
 	return js
 }
